@@ -52,6 +52,9 @@ def rule_args(r):
     for modname, qual, owned in ENTRY_POINTS:
         fn = ix.find(modname, qual)
         if fn is None:
+            from .. import refs as _r
+            fn = ix.find(modname, _r.current_name("sasmodels/%s.py" % modname, qual))
+        if fn is None:
             raise AnalysisError("entry point missing: %s.%s" % (modname, qual))
         allp = pf.params(fn)
         summ = ix.summary(modname, qual)
